@@ -500,6 +500,11 @@ func (r *c15) sites() {
 				ok = true
 			}
 		}
+		// the same through a helper's parameters and a separator normalisation: path.Dir([ToSlash](referrer))
+		switch strings.ReplaceAll(an.Norm(gst, j.Args[0]), " ", "") {
+		case "path.Dir($p1)", "path.Dir(filepath.ToSlash($p1))":
+			ok = true
+		}
 		c.Check(ok, "C15.sites", "(*Set).getSiblingTemplate/join-dir", j.Pos(), "relative names are joined to path.Dir(referrer)", "relative names are not joined to the *directory* of the referring template (path.Dir(referrer))")
 	}
 }
